@@ -17,6 +17,7 @@ from .fakenet import sockaddr
 from .vloop import TICKS_PER_S
 
 UNIT = TICKS_PER_S >> 10
+RUNAWAY = 1500  # datagrams per run (a busy schedule sends a few dozen)
 CLIENT, SERVER = 1, 2
 
 
@@ -57,6 +58,13 @@ def run(sched):
 
     def on_sent(rec):
         from_client = rec["sock"] == "client"
+        # two endpoints that keep answering each other (possible on a changed tree) would never let the run end:
+        # beyond a generous number of datagrams the network delivers nothing more and the trace is marked
+        state["sent"] = state.get("sent", 0) + 1
+        if state["sent"] > RUNAWAY:
+            if state["sent"] == RUNAWAY + 1:
+                ev("runaway")
+            return
         try:
             m = wire.decode(rec["data"])
         except wire.ParseError:
